@@ -117,6 +117,21 @@ CHECKS.update({
    text="The whole accessor tree of 17 generated path-struct packages (OpenConfig-style corpus voc plus a path corpus vps with string/uint32/int64/uint64/enum/identityref/union/boolean/decimal64 keys, 2- and 3-key lists, nested and ordered lists, config/state twins, list-only containers, choice/case, an augment, name collisions; variants: simple/wrapper unions, prefer_operational_state, ignore_shadow_schema_paths, path_struct_suffix, generate_wildcard_paths=false, simplify_wildcard_paths, list_builder_key_threshold, exclude_state, split_pathstructs_by_module) is explored breadth-first by reflection from the device root: every accessor with every tuple of the per-type key domains and every wildcard / partial-wildcard / builder variant (183,634 path nodes quick; 669,591 thorough). ygot.ResolvePath must succeed; element names must equal the data-tree path obtained independently from the GoStruct field tags and name a node of the right kind in the harness's own goyang compile; supplied keys must denote the supplied values; wildcarded keys must be '*'; the method set of each path struct is exactly the expected API; every schema node kept by compression is reached by exactly one non-wildcard chain.",
    technique="explicit-state BFS over the generated accessor tree (states = path nodes, transitions = accessor calls) with a path-resolution oracle against struct tags and goyang", note="trusted base: reflection driver, goyang, core.KeyMatches; schemas and key values outside the corpus are not covered"),
 })
+
+CHECKS.update({
+ "C28": dict(engine="valmc", cat="exploration", sec="5/C28",
+   text="protogen runs in-process (twice per case) on three corpora, a bounded-exhaustive family of 85 feature atoms (all singles and all 3,570 pairs) under up to 48 option configurations (compress, nested messages, schema-path / enum-name annotations, package variations), and 486 adversarial schemas whose identifiers were found by exhaustive enumeration with the real (overlay-exported) fieldTag: all 1.35M names of length <=4 over [a-z0-9-] plus an FNV-1 walk confirmed with fieldTag - colliding sibling pairs, names hashing to 0, into 1..1000 and into 19000..19999, name-mangling sets, keywords. Every emitted file set is parsed by an independent proto3 parser (harness/core/protoparse.go, self-tested on 38 broken files and all 56 golden files): distinct field names and numbers in 1..2^29-1 outside 19000-19999, distinct enum names/values with first value 0, no silently dropped enum value, tags equal across generations and unchanged when unrelated siblings / modules are added. A generator error is acceptable.",
+   technique="bounded-exhaustive enumeration of schemas x protogen options plus exhaustive identifier hashing for adversarial names; well-formedness decided by an independent proto3 parser on every output", note=VAL_NOTE),
+ "C30": dict(engine="treemc", cat="model_checking", sec="5/C30",
+   text="Explicit-state search (k<=3; thorough k<=4 on the predicate-bearing part) over an alphabet derived from the harness's own goyang compile: every leafref leaf, its targets, predicate selector leaves and the lists on the way, for vt, voc (6 configurations) and a leafref corpus (absolute leafref, [k=current()/../x] predicate, leafref to a leaf-list, leaf-list of leafrefs, leafref to a union): 420,844 states. Root Validate() must report a leafref error exactly when an independent evaluator of the leafref XPath subset on the Model finds a leafref value outside the node set its path selects, and never with IgnoreMissingData.",
+   technique="explicit-state BFS over tree-building sequences; differential against an independent leafref path evaluator in every state", note=TREE_NOTE),
+ "C32": dict(engine="treemc", cat="model_checking", sec="5/C32",
+   text="Every explicit-state search state (k<=2 on six uncompressed / compressed / prefer-operational-state / ignore-shadow packages; thorough k<=3) is handed to PruneConfigFalse: afterwards no leaf, leaf-list, list entry or presence container whose schema node is config false in the harness's own goyang compile remains - except compressed state leaves that have a config-true config/ twin (the documented applied-configuration exception) - every config-true value is unchanged, and a second call changes nothing. The Config flags the atoms read from the embedded schema are cross-checked against goyang.",
+   technique="explicit-state BFS over tree-building sequences; postcondition + frame + idempotence judged against an independent goyang compile in every state", note=TREE_NOTE),
+ "C33": dict(engine="treemc", cat="model_checking", sec="5/C33",
+   text="Every explicit-state search state (k<=2; thorough k<=3 focused) of the 8 corpus packages and a defaults corpus (defaults of every integer width, decimal64, string, boolean, enumeration, identityref, unions, binary, YANG 1.1 leaf-list defaults, typedef defaults, defaults in list entries, choice cases and presence / plain containers) calls the generated PopulateDefaults: every previously unset defaulted leaf inside existing or instantiated containers must hold the default computed from the harness's own goyang compile, every previously set leaf is unchanged, and a tree that validated before still validates.",
+   technique="explicit-state BFS over tree-building sequences; postcondition + frame + validity preservation judged against an independent goyang compile in every state", note=TREE_NOTE),
+})
 ALL = [json.loads(l)["id"] for l in open(os.path.join(V, "properties.jsonl"))]
 NA = {
 }
